@@ -35,7 +35,8 @@ def gen_macro(rng, idx, earlier):
         ix = [k for k, t in enumerate(kinds) if t == 'i']
         if r < .25 and es:
             k = rng.choice(es)
-            body.append(('ins', rng.choice(['.dw {%d}', '.dw {%d}*3', '.dw 2+{%d}', 'ldi r16, low({%d})', '.dw -{%d}', '.dw {%d} - 1', '.dw {%d}<<1', '.dw ~{%d} & 0xff', '.dw 10 - {%d}']) % k))
+            body.append(('ins', rng.choice(['.dw {%d}', '.dw {%d}*3', '.dw 2+{%d}', 'ldi r16, low({%d})', '.dw -{%d}', '.dw {%d} - 1', '.dw {%d}<<1', '.dw ~{%d} & 0xff', '.dw 10 - {%d}',
+                                             '.dw 1000/{%d}', '.dw 1000%%{%d}', '.dw 7*{%d}', '.dw (!{%d}) + 4', '.dw 60 - {%d} - 1', '.dw 1<<{%d}>>1', '.dw 3 & {%d} | 8', '.dw 5 == {%d}', '.dw 2 < {%d}']) % k))
         elif r < .4 and rs:
             k = rng.choice(rs)
             body.append(('ins', rng.choice(['mov {%d}, r2', 'inc {%d}', 'cp r3, {%d}', 'push {%d}']) % k))
@@ -120,7 +121,13 @@ def gen_program(rng):
                 x = rng.choice(['X', 'Y', 'Z', 'X+', 'Y+', '-Z', 'Y+5', 'Z+(1+2)'])
                 args_text.append(x); args.append((x, None))
             else:
-                tree = g.tree(rng.randrange(0, 3)) if rng.random() < .8 else ('c', rng.randrange(0, 9))
+                k = rng.random()
+                if k < .45:
+                    tree = small_tree(rng, rng.choice([1, 2, 2, 3]))     # small values: stays in range, so it is really used
+                elif k < .85:
+                    tree = g.tree(rng.randrange(0, 3))
+                else:
+                    tree = ('c', rng.randrange(0, 9))
                 tree = strip_syms(tree)
                 val = evaluate(tree)
                 if val is None or not (0 <= val <= 0x3fff):
@@ -140,6 +147,21 @@ def all_entries(m):
         yield e
         if e[0] == 'call':
             for x in all_entries(e[1]): yield x
+
+SMALL_OPS = ['add', 'sub', 'mul', 'div', 'rem', 'band', 'bor', 'bxor', 'shl', 'shr', 'lt', 'le', 'gt', 'ge', 'eq', 'ne', 'land', 'lor']
+
+def small_tree(rng, depth):
+    """expression trees over small constants with every operator at every position (in particular
+    a product/quotient/difference as the RIGHT operand of an operator of the same level, and below
+    unary operators), so that the way an argument is re-printed matters"""
+    if depth <= 0 or rng.random() < .2:
+        return ('c', rng.choice([1, 2, 3, 4, 5, 6, 7, 9, 12]))
+    k = rng.random()
+    if k < .15:
+        return ('u', rng.choice(['minus', 'bnot', 'lnot']), small_tree(rng, depth - 1))
+    if k < .2:
+        return ('f', rng.choice(['low', 'high', 'lwrd']), small_tree(rng, depth - 1))
+    return ('b', rng.choice(SMALL_OPS), small_tree(rng, depth - 1), small_tree(rng, depth - 1))
 
 def strip_syms(t):
     if t[0] == 's': return ('c', 3)
